@@ -738,6 +738,21 @@ macro_rules! derived_case {
 }
 
 fn run_derived(id: &str, kind: &str, seed: u64, out: &mut String) {
+    // a panic anywhere in the round trip itself is a failure of the case, not of the harness
+    let mut line = String::new();
+    match catch(AssertUnwindSafe(|| run_derived_inner(id, kind, seed, &mut line))) {
+        Ok(()) => out.push_str(&line),
+        Err(p) => writeln!(
+            out,
+            "D {} FAIL PANIC in the round trip of a valid value: {}",
+            id,
+            p.lines().next().unwrap_or("")
+        )
+        .unwrap(),
+    }
+}
+
+fn run_derived_inner(id: &str, kind: &str, seed: u64, out: &mut String) {
     let mut rng = Rng::new(seed);
     let r = &mut rng;
     let octets: Vec<u8> = (0..r.below(40)).map(|_| r.next() as u8).collect();
